@@ -82,7 +82,7 @@ extern int mpt_string_pset(char **ptr, MPT_INTERFACE(convertable) *src)
 	if (!len || !vec.iov_base) {
 		mpt_string_set(ptr, 0, 0);
 	}
-	else if ((len = mpt_string_set(ptr, vec.iov_base, -1) < 0)) {
+	else if ((len = mpt_string_set(ptr, vec.iov_base, -1)) < 0) {
 		return len;
 	}
 	return 0;
